@@ -45,16 +45,28 @@ for it in range(N):
         bad("sizing-search-raised-on-ordinary-numbers", error=repr(e)[:120], price=price, multiplier=mult, spread=spread, fee=fk, integer=intpos, position=p0, amount=amount); continue
     s.update(idx[0])
     q = a.position - p0
-    if q == 0: continue
     spent = cap0 - s.capital        # outlay + fee actually paid
-    closeout = (q == -p0)
-    if closeout: continue
+    true_closeout = abs(amount + p0 * unit) <= 1e-9 * max(1.0, abs(amount))     # allocating exactly minus the current value
+    if true_closeout:
+        if p0 != 0 and a.position != 0: bad("closing-amount-does-not-close-the-position", position=p0, left=a.position, amount=amount)
+        continue
+    tol = 1e-6 * max(1.0, abs(amount))
     if intpos:
-        if spent > amount + 1e-6 * max(1.0, abs(amount)): bad("whole-unit-trade-exceeds-the-budget", spent=spent, amount=amount, q=q, price=price, multiplier=mult, spread=spread, fee=fk, position=p0)
-        more, _, _, _ = a.outlay(q + 1) if False else (None, None, None, None)
+        full = lambda k: float(a.outlay(k)[0]) if k != 0 else 0.0
+        if q == 0:
+            # doing nothing is right only when it is the largest whole quantity whose cost stays within the amount
+            if amount < -tol:
+                # recorded finding: a sub-unit negative amount on a flat or short position is rounded towards zero
+                kw_ = dict(finding="C05-sub-unit-negative-amount-raises-nothing") if (-amount < price * mult and p0 <= 0) else {}
+                bad("negative-amount-raises-no-cash", amount=amount, price=price, multiplier=mult, position=p0, spread=spread, fee=fk, **kw_)
+            elif full(1.0) <= amount - tol and not (price * mult > abs(amount)): bad("a-unit-was-affordable-but-nothing-was-bought", amount=amount, price=price, multiplier=mult, position=p0, spread=spread, fee=fk)
+            continue
+        if spent > amount + tol: bad("whole-unit-trade-exceeds-the-budget", spent=spent, amount=amount, q=q, price=price, multiplier=mult, spread=spread, fee=fk, position=p0)
+        elif full(q + 1.0) <= amount - tol and (q + 1.0) != 0: bad("whole-unit-trade-is-not-the-largest-that-fits", q=q, amount=amount, spent=spent, one_more=full(q + 1.0), price=price, multiplier=mult, spread=spread, fee=fk, position=p0)
     else:
-        if abs(spent - amount) > 1e-6 * max(1.0, abs(amount)): bad("fractional-trade-does-not-spend-the-amount", spent=spent, amount=amount, q=q)
+        if q == 0: continue
+        if abs(spent - amount) > tol: bad("fractional-trade-does-not-spend-the-amount", spent=spent, amount=amount, q=q)
     if it < 2: samples.append(dict(price=price, multiplier=mult, spread=spread, fee=fk, integer=intpos, position=p0, amount=amount, traded=q, spent=spent))
-print("JSON:" + json.dumps(dict(evaluations=evals, distinct=len(distinct), failures=fails[:PARAMS.get("maxfail", 5)], samples=samples,
+print("JSON:" + json.dumps(dict(evaluations=evals, distinct=len(distinct), failures=sorted(fails, key=lambda f: "finding" in f)[:PARAMS.get("maxfail", 5)], samples=samples,
       rule="random price (0-4 decimals), multiplier, spread, 4 fee shapes (none, per unit, proportional, minimum ticket), prior long/short/flat position, signed amount (ordinary sizes, below one unit, and sizes whose costs add up to about one more unit), whole or fractional units; allocate must not raise and must respect the budget; distinct = distinct (fee, mode, multiplier, spread?, position sign, amount sign)",
       bound="%d random allocations on the direct API" % N)))
